@@ -180,6 +180,15 @@ func (a *dataSetAof) Close() {
 	}
 }
 
+func (a *dataSetAof) closeReaders() {
+	a.mux.Lock()
+	readers := append([]*AofRotateReader(nil), a.readers...)
+	a.mux.Unlock()
+	for _, r := range readers {
+		r.Close()
+	}
+}
+
 func (a *dataSetAof) CloseWriter() {
 	if a.rwRef.Load() == 0 { //fast path
 		return
@@ -352,17 +361,24 @@ func (ds *dataSet) FindAof(left int64) *dataSetAof {
 
 func (ds *dataSet) trimLastEmptyAof() {
 	ds.mux.Lock()
-	defer ds.mux.Unlock()
-
 	if len(ds.aofSegs) == 0 {
+		ds.mux.Unlock()
 		return
 	}
 
 	aofLast := len(ds.aofSegs) - 1
 	lastAof := ds.aofSegs[aofLast]
-	if lastAof.rtSize.Load() == 0 {
+	trimmed := lastAof.rtSize.Load() == 0
+	if trimmed {
 		delete(ds.aofMap, lastAof.Left())
 		ds.aofSegs = ds.aofSegs[:aofLast]
+	}
+	ds.mux.Unlock()
+
+	if trimmed {
+		// a reader that waits in the trimmed segment is off the index with it : nothing else
+		// would close it when the writer is replaced
+		lastAof.closeReaders()
 	}
 }
 
